@@ -162,7 +162,7 @@ def utc2itow(utc: datetime) -> tuple:
 
     wno = int((utc - EPOCH0).total_seconds() / SIW)
     sow = EPOCH0 + timedelta(seconds=wno * SIW)
-    itow = int(((utc - sow).total_seconds() + LEAPOFFSET) * 1000)
+    itow = round(((utc - sow).total_seconds() + LEAPOFFSET) * 1000)
     return wno, itow
 
 
